@@ -46,7 +46,7 @@ def run_case(case):
     def fn(r):
         comm = MPI.COMM_WORLD
         probs = []
-        f, c, t = setupCylindricalGrid(layout='v_parallel', npts=list(npts), comm=comm, eps=0.0, splineDegrees=[3, 3, 3, case['vdeg']])
+        f, c, t = setupCylindricalGrid(layout='v_parallel', npts=list(npts), comm=comm, eps=0.0, splineDegrees=[3, 3, 3, case['vdeg']], vMin=-6.1, **ops.GENERIC)
         eta = f.eta_grid
         lp = {'v_parallel_2d': [0, 2, 1], 'mode_solve': [1, 2, 0]}
         np2 = f.getLayout('v_parallel').nprocs[:2]
